@@ -33,6 +33,7 @@ type Step struct {
 	Kind   string            `json:"kind"` // goit | edit
 	Argv   []string          `json:"argv,omitempty"`
 	TZ     string            `json:"tz,omitempty"`
+	Cwd    string            `json:"cwd,omitempty"` // relative to the working tree; "" = the repository root
 	Env    map[string]string `json:"env,omitempty"`
 	Edit   *Edit             `json:"edit,omitempty"`
 	Intent map[string]string `json:"gen,omitempty"`
@@ -68,6 +69,9 @@ func (s *Step) String() string {
 	tz := ""
 	if s.TZ != "" && s.TZ != "UTC" {
 		tz = " [TZ=" + filepath.Base(s.TZ) + "]"
+	}
+	if s.Cwd != "" {
+		tz += " [cwd=" + s.Cwd + "]"
 	}
 	return fmt.Sprintf("goit %s%s -> exit %d", strings.Join(q, " "), tz, s.Exit)
 }
@@ -326,6 +330,7 @@ type World struct {
 	failed  []Failure
 	last    *sandbox.Snap
 	Tag     map[string]string // intent for next step
+	nextCwd string
 }
 
 func (c *Ctx) NewWorld(hist int, mons []Monitor) (*World, error) {
@@ -359,9 +364,16 @@ func (w *World) intent() map[string]string {
 	return t
 }
 
+// GoitIn runs one goit command with the given working directory (relative to the working tree).
+func (w *World) GoitIn(cwd string, argv ...string) *Step {
+	w.nextCwd = cwd
+	return w.Goit(argv...)
+}
+
 // Goit runs one goit command as a monitored step.
 func (w *World) Goit(argv ...string) *Step {
-	st := &Step{Seq: len(w.Steps), Kind: "goit", Argv: append([]string{}, argv...), TZ: w.TZ, Intent: w.intent()}
+	st := &Step{Seq: len(w.Steps), Kind: "goit", Argv: append([]string{}, argv...), TZ: w.TZ, Intent: w.intent(), Cwd: w.nextCwd}
+	w.nextCwd = ""
 	if len(w.Env) > 0 {
 		st.Env = map[string]string{}
 		for k, v := range w.Env {
@@ -376,7 +388,11 @@ func (w *World) exec(st *Step) {
 	st.Pre = w.cur()
 	w.Steps = append(w.Steps, st)
 	if st.Kind == "goit" {
-		st.Res = w.SB.Run(w.GoitBin, st.Argv, sandbox.RunOpts{TZ: st.TZ, ExtraEnv: st.Env})
+		ro := sandbox.RunOpts{TZ: st.TZ, ExtraEnv: st.Env}
+		if st.Cwd != "" {
+			ro.Dir = filepath.Join(w.SB.W(), st.Cwd)
+		}
+		st.Res = w.SB.Run(w.GoitBin, st.Argv, ro)
 		st.Exit, st.Signal = st.Res.Exit, st.Res.Signal
 		st.Stdout, st.Stderr = string(st.Res.Stdout), string(st.Res.Stderr)
 		w.C.Eval(1)
@@ -432,7 +448,7 @@ func (w *World) Write(path string, data []byte) *Step { return w.Edit("write", p
 
 // ReplayStep re-executes a recorded step.
 func (w *World) ReplayStep(old *Step) *Step {
-	st := &Step{Seq: len(w.Steps), Kind: old.Kind, Argv: old.Argv, TZ: old.TZ, Env: old.Env, Edit: old.Edit, Intent: old.Intent}
+	st := &Step{Seq: len(w.Steps), Kind: old.Kind, Argv: old.Argv, TZ: old.TZ, Cwd: old.Cwd, Env: old.Env, Edit: old.Edit, Intent: old.Intent}
 	w.exec(st)
 	return st
 }
